@@ -33,6 +33,7 @@ var rejectedInputs = []string{
 	"", "(1+", "1 +", "[1,2", "{'a':1", "'abc", "`x{1", "1 2 @", "@", "）", "1 + * 2", "a(1+1+23=3", "x = ", "if 1 {", "while", "func f(",
 	"(1 +\n\n2 @\n3)", "(1 +\n2 +\n\n\n3 @\n4)", "(1 +\n", "[1,\n\n\n 2,\n 3 @]", "(\r\n\r\n1 +\r\n @)", "{'a':\n\n\t\t1 @}", "(力量 +\n\n  敏捷 @ 3)", "[1,\n2,\n\n3,\n\n\n4 4]", "(\n\n\n\n)", "`{\n\n1 +}`",
 	"力量 + ", "1 +\n  2 +\n  (3", "'多字节文本' + (", "abc\ndef\n  ghi + ", "\n\n1 +", "x = 1\ny = (2", "# bad", "1 ? ", "[1..", "a.b.", "d +",
+	"&\nabc", "(1 + &\n2)", "(.\n", "[1, &\n2]", "{a: &\n}", "x.\n y", "1 + &\n",
 	"^st力量＝50", "^st。", "＋％", "`{1，}`", " ，1", "^st hp：3", "1 +，", "x = 1；", "^st 力量＋", "a ＞", "^st敏捷（", "1 ％ 2 ＠", "力量 ＆",
 	strings.Repeat("x", 70) + " + (", strings.Repeat("长", 30) + " + ", "1 +" + strings.Repeat(" ", 80), "\t\t(", "\"\\", "1d", "^st",
 }
@@ -228,8 +229,55 @@ func errorGeometryOK(text, input string) (bool, string) {
 	if _, err := fmt.Sscanf(text[idx+len(key):], "%d:%d", &line, &col); err != nil {
 		return false, "unparsable position"
 	}
+	// every place that states the position states the same one: the 'L:C (offset):' prefix, the Chinese
+	// line and the English line
+	var pl, pc, po int
+	havePrefix := false
+	if _, err := fmt.Sscanf(text, "%d:%d (%d)", &pl, &pc, &po); err == nil {
+		havePrefix = true
+		if pl != line || pc != col {
+			return false, fmt.Sprintf("the prefix says %d:%d, the position line says %d:%d", pl, pc, line, col)
+		}
+	}
+	for _, k := range []string{"位置 ", "Pos "} {
+		if i := strings.LastIndex(text, k); i >= 0 {
+			var l2, c2 int
+			if _, err := fmt.Sscanf(text[i+len(k):], "%d:%d", &l2, &c2); err == nil && (l2 != line || c2 != col) {
+				return false, fmt.Sprintf("%q says %d:%d, another part of the message says %d:%d", strings.TrimSpace(k), l2, c2, line, col)
+			}
+		}
+	}
 	if input == "" {
 		return true, ""
+	}
+	if havePrefix {
+		if po < 0 || po > len(input) {
+			return false, fmt.Sprintf("offset %d outside the input of %d bytes", po, len(input))
+		}
+		// line and column of that offset, the way the parser counts: a line break starts the next
+		// line at column 0, every other character advances the column
+		l, c := 1, 0
+		at := func(l, c int) bool { return l == line && c == col }
+		okPos := false
+		for b, r := range input {
+			if b > po {
+				break
+			}
+			if r == '\n' {
+				l, c = l+1, 0
+			} else {
+				c++
+			}
+			if b == po {
+				okPos = at(l, c)
+			}
+		}
+		if po == len(input) {
+			okPos = at(l, c) || at(l, c+1)
+		}
+		if !okPos && utf8.ValidString(input) {
+			return false, fmt.Sprintf("offset %d is not at line %d column %d of the input", po, line, col)
+		}
 	}
 	lines := strings.Split(input, "\n")
 	if line < 1 || line > len(lines) {
